@@ -245,13 +245,18 @@ def run(ctx):
             elif not r[3].startswith("ok") or '"k":"str"' in r[2] or '"k":"num"' in r[2]:
                 nontriv.add("s" + r[1] + r[2])
     cl_expect = {"nil": 0, "[]any:2": 2, "[]string:2": 1, "[]json.Number:1": 1, "[]bool:1": 1, "[]map[string]any:1": 1,
-                 "[]float64:1": 1, "[]int64:1": 1, "[]int:2": 1, "[]uint64:1": 1, "scalar": 1, "map": 1, "[]string:0": 0}
+                 "[]float64:1": 1, "[]int64:1": 1, "[]int:2": 1, "[]uint64:1": 1, "scalar": 1, "map": 1, "[]string:0": 0,
+                 "[]any:0": 0, "[]any:1:nil": 1, "[]map[string]any:0": 0, "[]map[string]any:1:empty": 1, "[]json.Number:0": 0,
+                 "[]bool:0": 0, "[]any:1:[]": 1}
     for r in rows:
         if r[0] == "cl":
             total += 1
             dist["coercelist"] += 1
-            if cl_expect.get(r[1]) != int(r[2]):
-                divs.append({"kind": "coercelist", "input": r[1], "impl_len": int(r[2]), "model_len": cl_expect.get(r[1])})
+            # a single (non-list, non-nil) value of whatever dynamic type is the one-item list (single_takes_wrap_arm)
+            want_len = 1 if r[1].startswith("single:") else cl_expect.get(r[1])
+            if want_len != int(r[2]):
+                divs.append({"kind": "coercelist", "input": r[1], "impl_len": int(r[2]), "model_len": want_len,
+                             "call": "graphql.CoerceList(<%s>) has %s items, the specification's list has %s" % (r[1], r[2], want_len)})
 
     # ---- generated servers
     hbin = os.path.join(vf.CACHE, "h_c02")
@@ -298,7 +303,8 @@ def run(ctx):
         sj["scalars"] = SCALARS
         sj["cfg"] = CFG[cfg]
         cfg = cfg_label
-        rc, so, se = vf.sh([hbin, "-mode", "gen", "-schema", spath, "-seed", str(ctx.seed), "-n", str(n_cases)], timeout=600)
+        rc, so, se = vf.sh([hbin, "-mode", "gen", "-schema", spath, "-seed", str(ctx.seed), "-n", str(n_cases),
+                             "-corpus", os.path.join(vf.VERIF, "corpus", "C02")], timeout=600)
         if rc != 0:
             raise RuntimeError("case generation failed: " + se[-2000:])
         case_lines = [l for l in so.split("\n") if l]
@@ -412,6 +418,8 @@ def run(ctx):
         failing = False
         if d["kind"] == "scalar":
             failing = scalar_changed(d)
+        if d["kind"] == "coercelist" and d["input"].startswith("single:"):
+            failing = True   # a concrete input of the real CoerceList whose result is not the specification's one-item list
         ctx.violation(dict(d, shape={"kind": d["kind"]}, replay=json.dumps(d, default=str)[:3000]),
                       no_failing_input=not failing)
     if not proved and ok_extract and not unexplained and not any(not nf for _, nf in ctx.violations):
@@ -420,7 +428,7 @@ def run(ctx):
     ctx.cov.update({
         "evaluations": total,
         "distinct_nontrivial": len(nontriv),
-        "rule": "scalars: every Unmarshal* x boundary grid of int/int64/json.Number/string/float64/bool/nil; operations: directed shapes (boundary integers on every integer scalar as literal / number variable / string variable, floats for ints, omitted vs null vs value, single value to list at every depth, defaults of every kind, enums, argument directives, nested fields) + seeded random operations over every argument of the probe schema (literals and variables, top level and nested, provided / absent / null) with a 25% invalid stream. Non-trivial = a case with at least one tag beyond a plain directed literal",
+        "rule": "scalars: every Unmarshal* x boundary grid of int/int64/json.Number/string/float64/bool/nil; operations: directed shapes (boundary integers on every integer scalar as literal / number variable / string variable, floats for ints, omitted vs null vs value, single value to list at every depth and for every list-typed argument / input field x kind of item (scalars, enums, input objects incl. {} and all-default objects, nested lists; literal, variable, schema default; corpus/C02), defaults of every kind, enums, argument directives, nested fields) + seeded random operations over every argument of the probe schema (literals and variables, top level and nested, provided / absent / null) with a 25% invalid stream. Non-trivial = a case with at least one tag beyond a plain directed literal",
         "input_distribution": dict(dist),
         "correspondence_divergences": len(divs),
         "spec_violations": len(unexplained),
